@@ -44,6 +44,15 @@ CHECKS["C04"] = dict(
     note="Set order modelled as one engine-chosen total order per run (N! schedules); the pool is a stub running whole tasks in any "
          "order. Outside: pre-emption between real threads inside a task, evaluators.py beyond dr.run/run_all.")
 
+CHECKS["C05"] = dict(
+    text="Bounded model checking of the real SpecSet metaclass wiring, context-handler/ignore registration and RegistryPoint "
+         "selection: every registration history of <=3 (quick) / <=4 (thorough) implementations of one registry point, each bound to "
+         "two execution contexts in 7 ways (direct, at-least-one list, through an intermediate datasource, mixed), every active "
+         "context, every outcome (value / content error / skip / None); the spec must carry exactly the symbolic value of the last "
+         "implementation declared for the active context (solver-discharged), nothing overridden or foreign may run.",
+    note="Outside: the shipped spec modules entry by entry (instances of the mechanism); implementations subclassing another "
+         "implementation class; more than two contexts.")
+
 NOT_APPLICABLE = {
 }
 
